@@ -306,8 +306,8 @@ func (e *Engine) Store(d *Desc) {
 		} else {
 			e.hit("block:diff-meets-theorem-hypothesis(wf)")
 		}
-		if ans != "new=ok legacy=ok" {
-			e.fail(Failure{Sig: "model-store-result", What: "model: " + ans + ", implementation: ok", Query: map[string]any{"step": len(e.steps) - 1}})
+		if !e.modelOK(ans) {
+			e.fail(Failure{Sig: "model-store-result", What: "model: " + ans + ", implementation: ok", Query: map[string]any{"step": len(e.steps) - 1, "model": ans, "impl": "ok"}})
 		}
 	}
 }
@@ -317,6 +317,21 @@ func firstLine(s string) string {
 		return s[:i]
 	}
 	return s
+}
+
+// modelOK: the model performed the operation on every backend this history has a node of (a
+// single-backend history does not follow the other backend's model any further).
+func (e *Engine) modelOK(ans string) bool {
+	f := strings.Fields(ans)
+	if len(f) != 2 {
+		return false
+	}
+	for _, n := range e.nodes {
+		if (n.kind == "new" && f[0] != "new=ok") || (n.kind == "legacy" && f[1] != "legacy=ok") {
+			return false
+		}
+	}
+	return true
 }
 
 // modelTry asks the Lean model for the outcome of an operation without performing it:
@@ -472,8 +487,8 @@ func (e *Engine) Revert() {
 	e.lastRev = e.descs[len(e.descs)-1]
 	e.descs = e.descs[:len(e.descs)-1]
 	if ans, ok := e.ask("revert"); ok {
-		if ans != "new=ok legacy=ok" {
-			e.fail(Failure{Sig: "model-revert-result", What: "model: " + ans + ", implementation: ok", Query: map[string]any{"step": len(e.steps) - 1}})
+		if !e.modelOK(ans) {
+			e.fail(Failure{Sig: "model-revert-result", What: "model: " + ans + ", implementation: ok", Query: map[string]any{"step": len(e.steps) - 1, "model": ans, "impl": "ok"}})
 		}
 	}
 }
